@@ -23,6 +23,7 @@ theorem response_history_independent (app : App) (hist : List HReq) (r : HReq) :
   simp only
   rw [resolve_core _ _ r hcore]
   rw [wsgi_slots_irrelevant app (hist.foldl (serve₁ app) AppState.init).slots AppState.init.slots]
+  rw [withProbe_slots_irrelevant (hist.foldl (serve₁ app) AppState.init).slots AppState.init.slots]
 
 /-- nothing a request sets or sends is ever written to the shared `HTTPError` objects of
 `errors_map`: after any history their status, headers, cookies and body are the initial ones -/
@@ -71,10 +72,13 @@ theorem shared_count : sharedInit.length = 3 := by decide
 
 /-- `retained_bounded`: after serving any history — in particular N failing requests of any
 kind — at most 4 requests have per-request objects (environ, input stream) reachable from the
-application: the one the reused request object points at and one per shared error object (the
-frames of its last raise; `_raise` resets the traceback before raising).  The bound is a
-numeral, independent of the history. -/
-theorem retained_bounded (app : App) (hist : List HReq) :
+application: the one the reused request object points at and one per shared error object of
+`errors_map` (`_raise` resets the traceback before raising; `_handle` drops it again when the
+response reaches its `except HTTPResponse` clause).  The bound is a numeral, independent of the
+history.  Hypothesis: raised responses reach that clause (no after-hook fails), or the
+application raises no module-level response object of its own — see `singleton_residue`. -/
+theorem retained_bounded (app : App) (hist : List HReq)
+    (hc : reachesExcept app = true ∨ ∀ hr ∈ hist, hr.singleton = none) :
     (retained (hist.foldl (serve₁ app) AppState.init)).length ≤ 4 := by
   have htb := foldl_tb app hist AppState.init (by
     intro e he
@@ -85,30 +89,42 @@ theorem retained_bounded (app : App) (hist : List HReq) :
   have hflat := flatMap_tb_length _ htb.1
   rw [htb.2] at hflat
   have hlen : AppState.init.shared.length = 3 := shared_count
+  have happ := flatMap_empty _ (foldl_appTb app hist AppState.init (fun p hp => by cases hp) hc)
   unfold retained
   refine Nat.le_trans (dedup_length_le _) ?_
-  simp only [List.length_append]
+  rw [happ]
+  simp only [List.length_append, List.length_nil, Nat.add_zero]
   cases (hist.foldl (serve₁ app) AppState.init).slots.req with
   | none => simp only [List.length_nil]; omega
   | some q => simp only [List.length_cons, List.length_nil]; omega
 
 /-- `retained_bounded` in the form "there is a constant" -/
 theorem retained_bounded_exists :
-    ∃ K : Nat, ∀ (app : App) (hist : List HReq), (retained (hist.foldl (serve₁ app) AppState.init)).length ≤ K :=
+    ∃ K : Nat, ∀ (app : App) (hist : List HReq),
+      (reachesExcept app = true ∨ ∀ hr ∈ hist, hr.singleton = none) →
+      (retained (hist.foldl (serve₁ app) AppState.init)).length ≤ K :=
   ⟨4, retained_bounded⟩
 
 /-- the one environ the request object keeps is the last request's -/
 theorem request_slot_is_last (app : App) (st : AppState) (r : HReq) :
-    (serve app st r).1.slots.req = some { id := r.req.id, urlRepr := r.req.urlRepr, json := r.req.json } := by
+    ((serve app st r).1.slots.req).map (fun q => (q.id, q.urlRepr, q.json)) =
+      some (r.req.id, r.req.urlRepr, r.req.json) := by
   have hreq : (resolve st.shared r).1.id = r.req.id ∧ (resolve st.shared r).1.urlRepr = r.req.urlRepr ∧
       (resolve st.shared r).1.json = r.req.json := by
     unfold resolve
     split
     · split <;> exact ⟨rfl, rfl, rfl⟩
     · exact ⟨rfl, rfl, rfl⟩
+  have hp := withProbe_ids st.slots r (resolve st.shared r).1
+  have hw := wsgi_req app st.slots (withProbe st.slots r (resolve st.shared r).1)
+  rw [hp.1, hp.2.1, hp.2.2, hreq.1, hreq.2.1, hreq.2.2] at hw
   unfold serve
   simp only
-  rw [wsgi_req, hreq.1, hreq.2.1, hreq.2.2]
+  cases r.ext with
+  | none => simp only [hw, Option.map_some]
+  | some sets =>
+    simp only [hw]
+    split <;> simp only [hw, Option.map_some]
 
 /-! ### NonVacuity: concrete histories -/
 section NonVacuity
@@ -146,13 +162,43 @@ request alive, not five -/
 example : retained ([bigBodyReq 1, bigBodyReq 2, bigBodyReq 3, bigBodyReq 4, bigBodyReq 5].foldl
     (serve₁ exApp) AppState.init) = [5] := by decide +kernel
 
-/-- the bound is attained up to the three shared objects: one failing request per mapped class
-and then a different request -/
-example : (retained ([{ bigBodyReq 1 with bodyErr := some "RequestError" },
+/-- after d1483c6 a raised mapped error that reaches `_handle` keeps nothing alive: with an
+application whose after-hooks do not fail only the request object's environ is retained -/
+example : retained ([{ bigBodyReq 1 with bodyErr := some "RequestError" },
     { bigBodyReq 2 with bodyErr := some "BodyParsingError" }, bigBodyReq 3,
-    { bigBodyReq 7 with bodyErr := none }].foldl
-    (serve₁ exApp) AppState.init)).length = 4 := by decide +kernel
+    { bigBodyReq 7 with bodyErr := none }].foldl (serve₁ exApp) AppState.init) = [7] := by decide +kernel
+
+/-- an application whose after-hook always raises: the mapped error is replaced while it
+propagates and keeps its last traceback -/
+def failingAfterApp : App := { before := [], after := [{ effs := [], res := .raises }], errHandlers := [] }
+
+/-- … then the bound 4 is attained: one failing request per mapped class, then another request -/
+example : reachesExcept failingAfterApp = false ∧
+    (retained ([{ bigBodyReq 1 with bodyErr := some "RequestError" },
+      { bigBodyReq 2 with bodyErr := some "BodyParsingError" }, bigBodyReq 3,
+      { bigBodyReq 7 with bodyErr := none }].foldl (serve₁ failingAfterApp) AppState.init)).length = 4 := by
+  decide +kernel
+
+/-- a handler that raises the application's module-level `HTTPError` number 0 -/
+def singletonReq (id : Nat) : HReq :=
+  { req := mkReq id true (.found { effs := [], res := .raisesResp (mkError 403 "denied".toList) }),
+    bodyErr := none, singleton := some 0 }
+
+/-- hypotheses of `retained_bounded`, first alternative: singletons raised, after-hooks fine -/
+example : reachesExcept exApp = true ∧
+    retained ([singletonReq 1, singletonReq 2, singletonReq 3].foldl (serve₁ exApp) AppState.init) = [3] := by
+  decide +kernel
 
 end NonVacuity
+
+/-- `singleton_residue`: the hypothesis of `retained_bounded` cannot be dropped on the current
+code.  `raise SINGLETON` in application code extends the object's traceback; `_handle` resets it
+only when the object reaches its `except HTTPResponse` clause.  With an after-hook that raises on
+every request the object is replaced on the way, and five such requests keep five requests
+alive.  (Nothing the framework can intercept: the raise happens in application code.) -/
+theorem singleton_residue :
+    reachesExcept failingAfterApp = false ∧
+    (retained ([singletonReq 1, singletonReq 2, singletonReq 3, singletonReq 4, singletonReq 5].foldl
+      (serve₁ failingAfterApp) AppState.init)).length = 5 := by decide +kernel
 
 end Ombott.History
